@@ -51,6 +51,11 @@ fn main() {
         let _ = std::fs::remove_dir_all(&scratch);
         return;
     }
+    if prop == "c10-child" {
+        // nv c10-child <scratch dir> <auth: none|db|admin> <file holding one line>: the line is executed by a thread
+        // with the default stack of a connection thread; whatever happens short of the process dying is exit 0
+        std::process::exit(nv::props::c10::child_main(&args[2], &args[3], &args[4]));
+    }
     if prop == "selftest" {
         let ok = nv::props::selftest();
         std::process::exit(if ok { 0 } else { 2 });
